@@ -26,6 +26,12 @@ def _engine_cases(tier, seed):
             if qa is not None: q["a"] = qa
             if qb is not None: q["b"] = qb
             yield dict(a=list(acol), b=bcol, query=q or None, formulas=formulas)
+      # queries on the row id itself (alone and combined), incl. repeats and unhashable members
+      for qid in ([1], [3, 1], [1, 3, 4], [4, 4, 1, ["L", 1]], [3, 3], [7], []):
+        for qb in (None, [0, 1]):
+          q = {"id": qid}
+          if qb is not None: q["b"] = qb
+          yield dict(a=list(acol), b=bcol, query=q, formulas=True)
 
 
 def _call(a):
@@ -52,7 +58,7 @@ def _spec_rows(full, query):
   for i, r in enumerate(full.row_ids):
     ok = True
     for col, vals in (query or {}).items():
-      cell = full.columns[col][i]
+      cell = r if col == "id" else full.columns[col][i]
       if not any(cell is v or cell == v for v in vals):
         ok = False
     if ok: out.append(r)
